@@ -193,11 +193,12 @@ def run_case(case):
                 top_k = 0
                 for i, ch in enumerate(ref.clock.sites):
                     if "reached_time_limit" in ch:
-                        if len(ch) > 3 and ch[3] == "_check_terminate":
+                        # a deadline check made while a trial is being computed is an inner one; all others are the loop's own
+                        t_in = next((ti for ti, (s0, e0) in enumerate(spans) if s0 < i + 1 <= e0), None)
+                        if t_in is None:
                             checks.append((i + 1, "top", top_k))
                             top_k += 1
                         else:
-                            t_in = next((ti for ti, (s0, e0) in enumerate(spans) if s0 < i + 1 <= e0), None)
                             checks.append((i + 1, "inner", t_in))
                 fire = next((c for c in checks if c[0] >= stop), None)
                 if fire is None:
